@@ -740,6 +740,13 @@ pub fn should_collapse_function_body(ctx: &Context, function_body: &FunctionBody
             .any(trivia_util::trivia_is_comment)
         || trivia_util::contains_comments(function_body.block());
 
+    // A comment on the return type [e.g. `function foo(): number -- comment`] would swallow a collapsed body
+    #[cfg(feature = "luau")]
+    let require_multiline_function = require_multiline_function
+        || function_body
+            .return_type()
+            .is_some_and(trivia_util::contains_comments);
+
     !require_multiline_function
         && (trivia_util::is_block_empty(function_body.block())
             || (trivia_util::is_block_simple(function_body.block())
